@@ -204,26 +204,22 @@ Boolean RetrieveCodeFromChunkList(
         tCodeChunkList const* pCodeChunkList, LargeWord Start, Byte* pData,
         unsigned Count) {
     tCodeChunk const* pChunk;
-    LargeWord         OverlapStart, OverlapEnd;
     Boolean           Found;
 
     while (Count > 0) {
         Found = False;
+
+        /* look for the chunk that holds the next byte wanted */
+
         for (pChunk = pCodeChunkList->Chunks;
              pChunk < pCodeChunkList->Chunks + pCodeChunkList->RealLen; pChunk++) {
-            /* an empty chunk (empty input file) holds no address; its 'last
-               address' Start + 0 - 1 would wrap around */
+            if ((Start >= pChunk->Start) && (Start - pChunk->Start < pChunk->Length)) {
+                LargeWord Avail      = pChunk->Length - (Start - pChunk->Start);
+                unsigned  PartLength = (Avail < Count) ? (unsigned)Avail : Count;
 
-            if (!pChunk->Length) {
-                continue;
-            }
-            OverlapStart = max(pChunk->Start, Start);
-            OverlapEnd   = min(pChunk->Start + pChunk->Length - 1, Start + Count - 1);
-            if (OverlapStart <= OverlapEnd) {
-                unsigned PartLength = OverlapEnd - OverlapStart + 1;
-
-                memcpy(pData, pChunk->pCode + (OverlapStart - pChunk->Start), PartLength);
+                memcpy(pData, pChunk->pCode + (Start - pChunk->Start), PartLength);
                 pData += PartLength;
+                Start += PartLength;
                 Count -= PartLength;
                 Found = True;
                 break;
